@@ -231,6 +231,108 @@ func TestC19ExhaustiveTrees(t *testing.T) {
 		"level_lists_this_shard": lists, "cases_this_shard": n, "shards": shards})
 }
 
+// DeepLinks are the systematic chain depths (Unwrap links between the finished chain and the class): around the
+// powers of two 32..4096 (thorough ..16384) and the powers of ten, and a few in between.
+func DeepLinks() []int {
+	var d []int
+	for p := 32; p <= vstat.Pick(4096, 16384); p *= 2 {
+		d = append(d, p-1, p, p+1)
+	}
+	for p := 100; p <= vstat.Pick(1000, 10000); p *= 10 {
+		d = append(d, p-1, p, p+1)
+	}
+	return append(d, 2000, 3000, 5000)
+}
+
+// deepShapes returns the level lists of the systematic deep chains with `links` links in all.
+func deepShapes(links, variant int) map[string][]Wrap {
+	sides := []Side{{Kind: SideKinds[variant%len(SideKinds)], Text: "side"}}
+	fork := Wrap{Pre: "[", Mid: " | ", Post: "]", Sides: sides, Pos: variant / 2 % 2}
+	if variant%2 == 1 {
+		fork.Kind = LJoin
+	}
+	below := (links - 1) / 2
+	m := map[string][]Wrap{
+		"bare":      {{Rep: links - 1}},
+		"text":      {{Pre: "/", Rep: links - 1}},
+		"fork_mid":  {{Rep: below - 1}, fork, {Pre: ":", Rep: links - below - 2}},
+		"below_rpc": {{Rep: links - 1}, {Kind: LGRPC}, {Pre: "ctx: "}},
+		"above_rpc": {{Pre: "ctx: "}, {Kind: LGRPC}, {Rep: links - 2}},
+	}
+	if links <= 257 {
+		f := fork
+		if links > 65 {
+			f.Kind = LFmt // a Join renders its whole message again on every Error() call: long runs of forks are several-%w levels
+		}
+		f.Rep = links - 1
+		m["forks_all_the_way"] = []Wrap{f}
+	}
+	return m
+}
+
+// TestC19Deep: 'fmt %w at any depth' - chains of tens to thousands of links around every coded class (plain, with text,
+// with a several-%w / Join node in the middle, below and above an inner GRPCWrap, forks all the way for the shorter
+// ones), without an object and with one embedded innermost / outermost; and objects whose JSON text ends in the bytes
+// around every multiple of 512 up to 8 KiB (thorough 32 KiB), padded in the string, in many elements or in many fields.
+func TestC19Deep(t *testing.T) {
+	st := vstat.For(prop)
+	shard, shards := vstat.Shard()
+	deal := 0
+	mine := func() bool { deal++; return deal%shards == shard }
+	run := func(c Case) {
+		info, v := Run(c)
+		st.Report(t, "TestC19Deep", c, v)
+		record(c, info)
+	}
+	deep, sized := int64(0), int64(0)
+	names := []string{"bare", "text", "fork_mid", "below_rpc", "above_rpc", "forks_all_the_way"}
+	for di, links := range DeepLinks() {
+		for ci, cls := range CodedClasses {
+			shapes := deepShapes(links, di+ci)
+			for _, name := range names {
+				wraps, ok := shapes[name]
+				if !ok {
+					continue
+				}
+				for _, emb := range []int{-1, 0, len(wraps)} {
+					if !mine() {
+						continue
+					}
+					c := Case{Kind: "chain", Chain: Chain{Class: cls, Wraps: wraps, Embed: emb}}
+					if emb >= 0 {
+						c.Obj = Objects[(di+ci)%len(Objects)]
+					}
+					run(c)
+					deep++
+				}
+			}
+		}
+	}
+	maxObj := vstat.Pick(8192, 32768)
+	n := 0
+	for m := 512; m <= maxObj; m += 512 {
+		for delta := -8; delta <= 2; delta++ {
+			for _, pad := range []string{"obj.s", "obj.l", "obj.x"} {
+				for _, outer := range []bool{false, true} {
+					n++
+					if !mine() {
+						continue
+					}
+					ch := Chain{Class: CodedClasses[n%len(CodedClasses)], Wraps: []Wrap{Styles[1], Styles[2]}, Obj: Objects[n%2], ObjTarget: m + delta, Pad: pad}
+					if outer {
+						ch.Embed = 2
+					}
+					run(Case{Kind: "chain", Chain: ch})
+					sized++
+				}
+			}
+		}
+	}
+	st.SetExhaustive("errors_deep_chains_and_object_sizes", map[string]any{
+		"links": DeepLinks(), "deep_shapes": names, "classes_with_code": len(CodedClasses), "deep_chain_cases_this_shard": deep,
+		"object_json_sizes": fmt.Sprintf("every multiple of 512 up to %d, -8..+2", maxObj), "sized_object_cases_this_shard": sized, "shards": shards})
+}
+
 // text pieces: ASCII, unicode, JSON fragments, colons, '%', ESC, "json", marker prefixes, class and gRPC phrases
 var pieces = []string{"", " ", ": ", ":", "ctx", "a: b", "100%", "%w", "%s%d%v", "%!", "\x1b", "json", "\x1bjso", "jso", "son", "n", "\x1bj", "\x1b\x1b",
 	"JSON", "\x1bJSON", `{"a":1}`, `{"s":"x"`, `"}`, "[1,2]", `\u001bjson`, `\x1bjson`, "héllo wörld", "日本語", "😀", "\n", "\t", " ",
@@ -368,6 +470,50 @@ func genChain(t *rapid.T, big int) Chain {
 	if rapid.IntRange(0, 3).Draw(t, "embed?") > 0 {
 		c.Embed = rapid.IntRange(0, depth).Draw(t, "embedLevel")
 		c.Obj = genObj(t, "obj.", 2)
+	}
+	// one chain in ten is deep: one or two of its levels become runs of tens to thousands of identical levels (short
+	// texts: the message of a chain grows with every link); no length target then
+	deepOdds := vstat.Pick(9, 19) // the thorough tier runs twenty times as many chains
+	if big < 4 {
+		deepOdds = 29 // chains of a batch: 2..8 of them make one case
+	}
+	if depth > 0 && rapid.IntRange(0, deepOdds).Draw(t, "deep") == 0 {
+		short := rapid.SampledFrom([]string{"", "", "", ": ", "/", "\x1b", "n", "é"})
+		for n := rapid.IntRange(1, 2).Draw(t, "runs"); n > 0; n-- {
+			w := &c.Wraps[rapid.IntRange(0, depth-1).Draw(t, "runAt")]
+			if w.Kind == LGRPC {
+				*w = Wrap{}
+			}
+			w.Pre, w.Post = short.Draw(t, "runPre"), short.Draw(t, "runPost")
+			var links int
+			if rapid.Bool().Draw(t, "edge") {
+				links = rapid.SampledFrom([]int{32, 64, 128, 256, 512, 1024, 2048, 4096, 100, 1000}).Draw(t, "linksEdge") + rapid.IntRange(-1, 1).Draw(t, "linksDelta")
+			} else {
+				bits := rapid.IntRange(3, 11).Draw(t, "linksBits")
+				links = rapid.IntRange(1<<bits, 2<<bits).Draw(t, "links")
+			}
+			if links > 512 && len(w.Sides) == 0 {
+				w.Pre, w.Post = "", "" // the message is copied at every link: long runs are bare %w (unit deep has long runs with text)
+			}
+			if len(w.Sides) > 0 {
+				links = min(links, 200) // every application adds the side errors' texts
+				if w.Kind == LJoin {
+					links = min(links, 40) // a Join renders its message anew, recursively, whenever it is asked for it
+				}
+				w.Mid = short.Draw(t, "runMid")
+				for i := range w.Sides {
+					w.Sides[i].Text = short.Draw(t, "runSide")
+				}
+			}
+			w.Rep = links - 1
+		}
+		return c
+	}
+	if big > 0 && c.Embed >= 0 && rapid.IntRange(0, 19).Draw(t, "objSize") == 0 {
+		// the object's JSON text ends around a multiple of 512
+		c.ObjTarget = 512*rapid.IntRange(1, 16).Draw(t, "objBlocks") + rapid.IntRange(-8, 2).Draw(t, "objDelta")
+		c.Pad = rapid.SampledFrom([]string{"obj.s", "obj.l", "obj.x"}).Draw(t, "objPad")
+		return c
 	}
 	c.Target, c.Pad = genTarget(t, big)
 	return c
